@@ -202,3 +202,157 @@ def to_jdf(p, name="rscase"):
     L.append("}")
     L.append("%}")
     return "\n".join(L) + "\n"
+
+
+# ------------------------------------------------------------------ static structure helpers
+def out_lt(o):
+    return o[2] if o[0] == "E" else o[1]
+
+
+def order_outs(outs):
+    """the order parsec-ptgpp gives to the output dependencies of a flow: grouped by local [type] in order of
+    first appearance, the untyped group first (jdf.c:jdf_reorder_dep_list_by_type)"""
+    un = [o for o in outs if out_lt(o) == 0]
+    ty = [o for o in outs if out_lt(o) != 0]
+    res = []
+    while ty:
+        t = out_lt(ty[0])
+        res += [o for o in ty if out_lt(o) == t]
+        ty = [o for o in ty if out_lt(o) != t]
+    return un + res
+
+
+def succs(p, c, k):
+    """successor instances of (c, k, 0) in the order of the generated iterate_successors:
+    dicts q k r to tro ti tri rank"""
+    res = []
+    for o in order_outs(p.classes[c].outs):
+        if o[0] != "E":
+            continue
+        q = o[1]
+        _, _, sh, ti, tri = p.classes[q].inp
+        kq = (k + p.nt - sh) % p.nt
+        for r in range(p.classes[q].R):
+            res.append({"q": q, "k": kq, "r": r, "to": o[2], "tro": o[3], "ti": ti, "tri": tri, "rank": p.rank_of(q, kq, r)})
+    return res
+
+
+def short_conflict(p):
+    """the documented unsupported case: with short messages, two different messages (different
+    (type, type_remote) groups) of one producer instance to the same remote rank"""
+    for c, C in enumerate(p.classes):
+        if C.R != 1:
+            continue
+        for k in range(p.nt):
+            me = p.rank_of(c, k, 0)
+            seen = {}
+            for u in succs(p, c, k):
+                if u["rank"] == me:
+                    continue
+                seen.setdefault(u["rank"], set()).add((u["to"], u["tro"]))
+            if any(len(v) > 1 for v in seen.values()):
+                return True
+    return False
+
+
+def chain_only(p, c):
+    """class c and all its ancestors are the only successor of their producer (R = 1, one E output, no
+    write-back on the producer): its body may modify the tile without racing with another reader"""
+    while True:
+        C = p.classes[c]
+        if C.R != 1:
+            return False
+        if C.inp[0] == "D":
+            return True
+        q = C.inp[1]
+        Q = p.classes[q]
+        if len(Q.outs) != 1:
+            return False
+        c = q
+
+
+# ------------------------------------------------------------------------------ generator
+def gen_program(rng, nranks=1, clean=False, maxcls=5):
+    """random program; clean: every producer gives all its consumers the same output [type] (outside the
+    stale-promise defect class, see notes/findings)"""
+    p = Prog()
+    p.nranks = nranks
+    p.mb = rng.pick([2, 3, 3, 4, 5])
+    p.esz = rng.pick([1, 4, 4, 8])
+    p.nt = rng.pick([1, 1, 2, 3])
+    ncls = rng.range(2, maxcls)
+    # size classes of the shapes: remote edges keep the packed size (see C18.py assumptions)
+    tri_shapes = [2, 3]
+    stri_shapes = [4, 5]
+
+    def any_shape():
+        return rng.pick([0, 0, 1, 2, 2, 3, 3, 4, 5])
+    root = Cls(1, "W", rng.pick([0, 0, 1]), ("D", rng.pick([0, 0, 0, 2, 3, 1]), rng.pick([0, 0, 0, 2, 3])), [])
+    p.classes.append(root)
+    for ci in range(1, ncls):
+        cands = [i for i in range(ci) if p.classes[i].R == 1 and len([o for o in p.classes[i].outs if o[0] == "E"]) < 4]
+        q = rng.pick(cands) if cands else 0
+        Q = p.classes[q]
+        sh = rng.below(p.nt)
+        R = rng.pick([1, 1, 1, 2, 3])
+        if clean:
+            prev = [o for o in Q.outs if o[0] == "E"]
+            to = prev[0][2] if prev else any_shape()
+        else:
+            to = any_shape()
+        ti = rng.pick([0, 0, to, any_shape()])
+        # remote attributes: absent, or a pair of the same packed size
+        kind = rng.pick([0, 0, 1, 2, 3])
+        if kind == 0:
+            tro, tri = 0, 0
+        elif kind == 1:
+            tro, tri = rng.pick([(1, 1), (1, 0), (0, 1)])
+        elif kind == 2:
+            tro, tri = rng.pick(tri_shapes), rng.pick(tri_shapes)
+        else:
+            tro, tri = rng.pick(stri_shapes), rng.pick(stri_shapes)
+        mode = rng.pick(["W", "W", "R"])
+        c = Cls(R, mode, 0, ("T", q, sh, ti, tri), [])
+        p.classes.append(c)
+        Q.outs.insert(rng.below(len(Q.outs) + 1), ("E", ci, to, tro))
+    # R > 1 only for leaves: reduce replicated classes that got consumers
+    for c in p.classes:
+        if any(o[0] == "E" for o in c.outs):
+            c.R = 1
+    # write-backs
+    for c in p.classes:
+        if c.mode == "W" and rng.chance(1, 2):
+            c.outs.insert(rng.below(len(c.outs) + 1), ("M", rng.pick([0, 0, 2, 3, 1, 4]), rng.pick([0, 0, 2, 3, 5])))
+    # bodies that modify their tile where no other task can observe the race
+    for ci, c in enumerate(p.classes):
+        if ci > 0 and chain_only(p, ci) and rng.chance(1, 2):
+            c.modify = 1
+    nt = p.ntiles()
+    style = rng.below(4)
+    if style == 0:
+        p.owner = [0] * nt
+    elif style == 1:
+        p.owner = [i for i in range(nt)]
+    elif style == 2:
+        p.owner = [rng.below(4) for _ in range(nt)]
+    else:   # per class
+        p.owner = []
+        for ci, c in enumerate(p.classes):
+            o = rng.below(4)
+            p.owner += [o] * (p.nt * c.R)
+    p.cores = rng.pick([1, 2, 4])
+    p.mt = rng.pick([0, 0, 1])
+    p.short = 1
+    assert wf(p) is None, wf(p)
+    return p
+
+
+def with_config(p, nranks, short, mt=None, cores=None):
+    import copy
+    q = copy.deepcopy(p)
+    q.nranks, q.short = nranks, short
+    if mt is not None:
+        q.mt = mt
+    if cores is not None:
+        q.cores = cores
+    return q
